@@ -492,6 +492,54 @@ pub fn totality_inputs() -> Vec<(String, Vec<u8>)> {
             v.push((format!("nesting {} x{}", t as char, depth), b));
         }
     }
+    // nesting through every child position of every container type (a seeded change stopped counting the depth
+    // for map values only): each unit opens a container and stops where the named child is expected
+    let units: [(&str, &[u8]); 8] = [
+        ("array[0]", b"*1\r\n"),
+        ("array[1]", b"*2\r\n:1\r\n"),
+        ("array[2]", b"*3\r\n:1\r\n$1\r\nx\r\n"),
+        ("set[0]", b"~1\r\n"),
+        ("set[1]", b"~2\r\n:1\r\n"),
+        ("map-key", b"%1\r\n"),
+        ("map-value", b"%1\r\n+k\r\n"),
+        ("map-second-value", b"%2\r\n+a\r\n+b\r\n+k\r\n"),
+    ];
+    for (name, u) in units.iter() {
+        for depth in [10usize, 200, 1000, 100_000, 1_000_000] {
+            let mut b = Vec::with_capacity(depth * u.len());
+            for _ in 0..depth {
+                b.extend_from_slice(u);
+            }
+            v.push((format!("nesting through {} x{}", name, depth), b));
+        }
+    }
+    for (na, ua) in units.iter() {
+        for (nb, ub) in units.iter() {
+            if na == nb {
+                continue;
+            }
+            let depth = 200_000usize;
+            let mut b = Vec::with_capacity(depth * (ua.len() + ub.len()) / 2);
+            for i in 0..depth {
+                b.extend_from_slice(if i % 2 == 0 { ua } else { ub });
+            }
+            v.push((format!("nesting alternating {} / {} x{}", na, nb, depth), b));
+        }
+    }
+    // complete frames around the nesting bound, through each position (the leaf and the remaining children follow)
+    for (name, open, rest) in [("array[0]", &b"*1\r\n"[..], &b""[..]), ("array[1]", b"*2\r\n:1\r\n", b""), ("array[0] of 2", b"*2\r\n", b":1\r\n"), ("set[0]", b"~1\r\n", b""), ("map-key", b"%1\r\n", b":1\r\n"), ("map-value", b"%1\r\n+k\r\n", b"")] {
+        for depth in [64usize, 127, 128, 129, 130, 300] {
+            let mut b = Vec::new();
+            for _ in 0..depth {
+                b.extend_from_slice(open);
+            }
+            b.extend_from_slice(b":7\r\n");
+            for _ in 0..depth {
+                b.extend_from_slice(rest);
+            }
+            v.push((format!("complete nesting through {} x{}", name, depth), b));
+        }
+    }
     v
 }
 
